@@ -59,7 +59,7 @@ fn run_batch(a: &CheckArgs) -> Result<(Stats, f64), String> {
     let mut hs = vec![];
     for w in 0..a.workers {
         let (next, stop, merged, harness_err, exe) = (next.clone(), stop.clone(), merged.clone(), harness_err.clone(), exe.clone());
-        let (prop, seed, fam) = (a.prop.clone(), a.seed, a.family.clone());
+        let (prop, seed, fam, tier) = (a.prop.clone(), a.seed, a.family.clone(), a.tier.clone());
         hs.push(std::thread::spawn(move || loop {
             if stop.load(Ordering::SeqCst) || t0.elapsed().as_secs() >= budget_s {
                 break;
@@ -70,11 +70,49 @@ fn run_batch(a: &CheckArgs) -> Result<(Stats, f64), String> {
             }
             let to = (from + CHUNK).min(max_runs);
             let mut cmd = std::process::Command::new(&exe);
-            cmd.arg("worker").arg(&prop).arg(seed.to_string()).arg(from.to_string()).arg(to.to_string()).arg(w.to_string());
+            cmd.env("VERIF_TIER", &tier).arg("worker").arg(&prop).arg(seed.to_string()).arg(from.to_string()).arg(to.to_string()).arg(w.to_string());
             if let Some(f) = &fam {
                 cmd.arg(f);
             }
-            let out = cmd.output();
+            // watchdog: a worker that makes no progress for minutes is blocked on something the
+            // simulator does not control (e.g. edited code using a real std primitive)
+            cmd.stdout(std::process::Stdio::piped()).stderr(std::process::Stdio::piped());
+            let out = cmd.spawn().and_then(|mut child| {
+                use std::io::Read;
+                let started = Instant::now();
+                let mut so = child.stdout.take().unwrap();
+                let mut se = child.stderr.take().unwrap();
+                let t_out = std::thread::spawn(move || {
+                    let mut b = Vec::new();
+                    let _ = so.read_to_end(&mut b);
+                    b
+                });
+                let t_err = std::thread::spawn(move || {
+                    let mut b = Vec::new();
+                    let _ = se.read_to_end(&mut b);
+                    b
+                });
+                loop {
+                    match child.try_wait()? {
+                        Some(status) => {
+                            let stdout = t_out.join().unwrap_or_default();
+                            let stderr = t_err.join().unwrap_or_default();
+                            return Ok(std::process::Output { status, stdout, stderr });
+                        }
+                        None => {
+                            if started.elapsed().as_secs() > 300 {
+                                let _ = child.kill();
+                                let _ = child.wait();
+                                return Err(std::io::Error::new(
+                                    std::io::ErrorKind::TimedOut,
+                                    format!("worker for runs {from}..{to} made no progress for 300 s: the code under test blocks outside the simulator's control (real lock, real sleep or I/O?)"),
+                                ));
+                            }
+                            std::thread::sleep(std::time::Duration::from_millis(10));
+                        }
+                    }
+                }
+            });
             match out {
                 Ok(o) if o.status.success() => {
                     let txt = String::from_utf8_lossy(&o.stdout);
